@@ -214,7 +214,7 @@ package badgerstore
 //@   ensures found: imp(isNil(err), kvhas[keyid(bytes(key))] && !isNil(v))
 //@ func (st *Store) setValue(txn *badger.Txn, key []byte, v interface{}) (err error)
 //@   nobody
-//@   modifies alloc, bytes, ghost.kvhas
+//@   modifies alloc, ghost.kvhas
 //@   ensures ok: imp(isNil(err), len(key) > 0 && kvhas == store(old(kvhas), keyid(old(bytes(key))), true))
 //@   ensures failed: imp(!isNil(err), kvhas == old(kvhas))
 //@   ensures empty: imp(len(key) == 0, !isNil(err))
@@ -270,3 +270,40 @@ package badgerstore
 //@   ensures ok: imp(isNil(err), old(kvhas[keyid(bytes(wt.rname))]) && kvhas == store(old(kvhas), keyid(old(bytes(wt.rname))), false) && chn == old(chn) + len(old(wt.st.onChange))
 //@       && imp(len(old(wt.st.onChange)) > 0, same(chid, wt.id) && !isNil(chb) && isNil(cha)))
 //@   ensures failed: imp(!isNil(err), kvhas == old(kvhas) && chn == old(chn))
+//@
+//@ # ================================================================ Init seeds the store exactly once (C12)
+//@ # The marker key $<prefix>init is written in the transaction that writes the seeds. initcbn: invocations of the init callback.
+//@ ghostvar initcbn int
+//@ func callback.initCB(self ref, add func(id string, v interface{})) (err error)
+//@   modifies ghost.initcbn
+//@   invokes add
+//@   ensures initcbn == old(initcbn) + 1
+//@ func Store.Init$1$1(id string, v interface{})
+//@   modifies map:map[string]interface{}, alloc
+//@   preserves nonempty: forallint(k, imp(mapHasId(entries, k), k != keyid("")))
+//@   preserves alive: entries != nil && !isNil(t)
+//@ pred cbsOK(st *Store) = st != nil && forall(k, 0, len(st.onChange), st.onChange[k] != nil) && forall(k, 0, len(st.beforeChange), st.beforeChange[k] != nil)
+//@ func Store.Init$1(txn *badger.Txn) (err error)
+//@   requires cbsOK(st) && txn != nil && cb != nil && created != nil
+//@   modifies ghost.kvhas, ghost.initcbn, alloc, bytes, map:map[string]interface{}
+//@   strkeys pairwise
+//@   callback cb initCB
+//@   # a seed is only written where no value exists
+//@   ghost call Store.setValue#1 before :: assert no.overwrite: !kvhas[keyid(bytes(arg_key))]
+//@   ensures marked: imp(old(kvhas[keyid("$" + st.prefix + "init")]), isNil(err) && kvhas == old(kvhas) && initcbn == old(initcbn) && len(created) == old(len(created)))
+//@   ensures seeded: imp(isNil(err) && !old(kvhas[keyid("$" + st.prefix + "init")]), kvhas[keyid("$" + st.prefix + "init")] && initcbn == old(initcbn) + 1)
+//@   ensures monotone: imp(isNil(err), forallint(k, imp(old(kvhas)[k], kvhas[k])))
+//@   ensures quiet: chn == old(chn)
+//@   loop 1 invariant bytes(initKey) == "$" + st.prefix + "init"
+//@   loop 1 invariant forallint(k, imp(old(kvhas)[k], kvhas[k])) && initcbn == old(initcbn) + 1 && created != nil
+//@ func (st *Store) Init(cb func(add func(id string, v interface{})) error) (rerr error)
+//@   requires cbsOK(st) && st.DB != nil && cb != nil
+//@   modifies all
+//@   strkeys pairwise
+//@   ensures marked: imp(old(kvhas[keyid("$" + st.prefix + "init")]), kvhas == old(kvhas) && initcbn == old(initcbn) && chn == old(chn))
+//@   ensures seeded: imp(isNil(rerr) && !old(kvhas[keyid("$" + st.prefix + "init")]), kvhas[keyid("$" + st.prefix + "init")] && initcbn == old(initcbn) + 1)
+//@   ensures monotone: imp(isNil(rerr), forallint(k, imp(old(kvhas)[k], kvhas[k])))
+//@   ensures failed: imp(!isNil(rerr), kvhas == old(kvhas))
+//@   # a failed Init (seeds rolled back) has announced nothing
+//@   ensures failed.quiet: imp(!isNil(rerr), chn == old(chn))
+//@   loop 1 invariant cbsOK(st) && st == old(st) && isNil(err) && imp(len(created) == 0, chn == old(chn))
